@@ -3005,7 +3005,8 @@ func (r *Runtime) trackPromiseRejection(p *Promise, operation PromiseRejectionOp
 }
 
 func (r *Runtime) callJobCallback(job *jobCallback, this Value, args ...Value) Value {
-	return job.callback(FunctionCall{This: this, Arguments: args})
+	// a host function may return a nil Value, which stands for undefined
+	return nilSafe(job.callback(FunctionCall{This: this, Arguments: args}))
 }
 
 func (r *Runtime) invoke(v Value, p unistring.String, args ...Value) Value {
